@@ -14,7 +14,13 @@
 (*    maxEnts]                                                             *)
 (* rootSets: the root sets to sweep (a set of subsets of 1..K); holders:   *)
 (* allowed holders of an ephemeron (0 = mutator); weakRows: rows may be    *)
-(* WeakGc; mapHolders: allowed holders of the weak map ({} = no map).      *)
+(* WeakGc; mapHolders: allowed holders of the weak map ({} = no map);      *)
+(* vals: the Gc values an ephemeron may have (0 = its value holds no Gc    *)
+(* handle); nest: a mutator-held row may instead lie directly in the value *)
+(* of an ephemeron created later (rows are <<kind, k, v, h, hr>>, hr = the *)
+(* index of that ephemeron or 0).  The order of the sequence is the        *)
+(* allocation order of the boxes, which the collector's passes follow; the *)
+(* families sweep all orders.                                              *)
 (***************************************************************************)
 EXTENDS Naturals, FiniteSets, Sequences
 
@@ -27,8 +33,16 @@ NoMap == 99          \* value of mh when the shape has no weak map
 \* enumerates the shapes without building the set of all of them
 RootSetsOf(f) == f.rootSets
 EdgeSetsOf(f) == {s \in SUBSET ((1..f.K) \X (1..f.K)) : Cardinality(s) <= f.maxEdges}
-RowSeqsOf(f)  == SeqsUpTo({<<"eph", k, v, h>> : k \in 1..f.K, v \in 1..f.K, h \in f.holders}
-                            \cup (IF f.weakRows THEN {<<"weak", k, 0, 0>> : k \in 1..f.K} ELSE {}), f.maxRows)
+BaseRows(f)   == {<<"eph", k, v, h>> : k \in 1..f.K, v \in f.vals, h \in f.holders}
+                   \cup (IF f.weakRows THEN {<<"weak", k, 0, 0>> : k \in 1..f.K} ELSE {})
+\* hr per position: 0, or a later position (which has to be an ephemeron; the row itself is then not held by a node)
+HrMaps(n, nest) == IF nest THEN {g \in [1..n -> 0..n] : \A i \in 1..n : g[i] = 0 \/ g[i] > i} ELSE {[i \in 1..n |-> 0]}
+RowSeqsN(f, n) ==
+  LET hm == HrMaps(n, f.nest) IN
+  UNION {{[i \in 1..n |-> <<w[i][1], w[i][2], w[i][3], w[i][4], g[i]>>] :
+             g \in {gg \in hm : \A i \in 1..n : gg[i] # 0 => w[gg[i]][1] = "eph" /\ w[i][4] = 0}} :
+         w \in [1..n -> BaseRows(f)]}
+RowSeqsOf(f)  == UNION {RowSeqsN(f, n) : n \in 0..f.maxRows}
 MapsOf(f)     == {<<NoMap, <<>>>>} \cup {<<h, t>> : h \in f.mapHolders, t \in SeqsUpTo((1..f.K) \X (1..f.K), f.maxEnts)}
 Shape(f, r, e, w, m) == [K |-> f.K, roots |-> r, edges |-> e, rows |-> w, mh |-> m[1], ents |-> m[2]]
 
@@ -44,8 +58,8 @@ AbsOf(s) ==
       armed |-> [n \in 1..s.K |-> 0],
       P |-> [x \in 1..(nr + ne) |->
                IF x <= nr THEN [kind |-> s.rows[x][1], k |-> s.rows[x][2], v |-> s.rows[x][3], h |-> s.rows[x][4],
-                                ok |-> TRUE, held |-> TRUE]
-               ELSE [kind |-> "ent", k |-> s.ents[x - nr][1], v |-> s.ents[x - nr][2], h |-> 1,
+                                hr |-> s.rows[x][5], ok |-> TRUE, held |-> TRUE]
+               ELSE [kind |-> "ent", k |-> s.ents[x - nr][1], v |-> s.ents[x - nr][2], h |-> 1, hr |-> 0,
                      ok |-> TRUE, held |-> ~later(x - nr)]],
       M |-> IF s.mh = NoMap THEN <<>> ELSE <<[h |-> s.mh, held |-> TRUE]>>]
 
@@ -53,7 +67,14 @@ AbsOf(s) ==
 (* The families used by the configs                                         *)
 
 Fam(K, rs, me, mr, hs, wr, mh, mx) ==
-  [K |-> K, rootSets |-> rs, maxEdges |-> me, maxRows |-> mr, holders |-> hs, weakRows |-> wr, mapHolders |-> mh, maxEnts |-> mx]
+  [K |-> K, rootSets |-> rs, maxEdges |-> me, maxRows |-> mr, holders |-> hs, weakRows |-> wr, mapHolders |-> mh, maxEnts |-> mx,
+   vals |-> 1..K, nest |-> FALSE]
+\* weak handles in ephemeron values: no edges, no map; every sequence of <= mr rows (WeakGc on any node, Ephemeron with
+\* any key, any value in 0..K, any holder of hs), every assignment of earlier rows to the values of later ephemerons.
+\* The families are closed under renaming the nodes, so the root sets {}, {1}, {1,2}, .. cover all root sets.
+NFam(K, mr, hs) ==
+  [K |-> K, rootSets |-> {1..j : j \in 0..K}, maxEdges |-> 0, maxRows |-> mr, holders |-> hs, weakRows |-> TRUE,
+   mapHolders |-> {}, maxEnts |-> 0, vals |-> 0..K, nest |-> TRUE]
 
 Graphs3   == Fam(3, SUBSET (1..3), 9, 0, {}, FALSE, {}, 0)                 \* every directed graph on 3 nodes (cycles, self loops)
 EphSeq3   == Fam(3, SUBSET (1..3), 0, 3, {0}, FALSE, {}, 0)                \* up to 3 mutator-held ephemerons on 3 nodes
@@ -65,7 +86,17 @@ Maps2     == Fam(2, SUBSET (1..2), 1, 0, {}, FALSE, 0..2, 2)               \* on
 Maps3     == Fam(3, SUBSET (1..3), 1, 0, {}, FALSE, 0..3, 2)
 MapsEph3  == Fam(3, SUBSET (1..3), 0, 1, 0..3, FALSE, 0..3, 1)             \* a weak map and an ephemeron together
 
+Nest3     == NFam(3, 3, {0})        \* incl. the chains C -> B -> A: A in the value of B, B's key alive only through C, all orders
+Nest2x4   == NFam(2, 4, {0})        \* 4 rows on 2 nodes: values holding two handles, three levels of nesting
+NestHeld2s == NFam(2, 2, 0..2)      \* the outer ephemeron held by a node
+NestHeld2 == NFam(2, 3, 0..2)
+Nest2     == NFam(2, 3, {0})
+
 FamQuick    == {Graphs3, EphSeq3, EphChain4, Mixed2, Maps2}
 FamThorough == {Graphs3, EphSeq4, Mixed3, Maps3, MapsEph3}
 FamGate     == {Graphs3, EphChain4, Mixed2, Maps2}
+FamNestQuick    == {Nest3, NestHeld2s}
+FamNestThorough == {Nest3, Nest2x4, NestHeld2}
+FamNestGate     == {Nest2}
+FamNestGateThorough == {Nest3, NestHeld2}
 =============================================================================
